@@ -6,6 +6,7 @@ instantiated by a reference run of libstdc++ itself.  Checks judged on the imple
 alone: support of EVERY element, same-seed replay, initializer outputs, and STATISTICAL
 acceptance tests (these are tests, not proofs; see `statistical_tests` in the evidence)."""
 import math
+import re
 import struct
 import pv
 
@@ -442,6 +443,34 @@ def finding_probes():
     return P
 
 
+COUNTS_RE = re.compile(r" counts inf=(\d+) zero=(\d+) negative=(\d+) nan=(\d+) other=(\d+) total=(\d+)$")
+
+
+def lognormal_range_mechanism(case, out):
+    """None if the FAIL line of a log_normal range probe shows exactly the known float-range finding
+    (D26): overflow probe (mean > 0) -> only +inf, at most 10 % of the elements; underflow probe
+    (mean < 0) -> only +0.  Otherwise the reason why it is something else."""
+    m = COUNTS_RE.search(out)
+    if not m:
+        return "no census of the breaches in the driver's reply (wrong size / not the range check)"
+    inf, zero, neg, nan, other, total = (int(g) for g in m.groups())
+    req = case.split()[4].split(":")
+    if req[0] != "l":
+        return "not a log_normal request"
+    mean = bf(req[1])
+    if neg or nan or other:
+        return "breaches other than +inf / +0: negative=%d nan=%d other=%d" % (neg, nan, other)
+    if mean > 0:
+        if zero or not inf:
+            return "overflow probe (mean %g) with zero=%d inf=%d" % (mean, zero, inf)
+        if inf * 10 > total:
+            return "overflow probe: %d of %d elements +inf, more than exp of a normal(%g, %s) draw explains" % (inf, total, mean, bf(req[2]))
+    else:
+        if inf or not zero:
+            return "underflow probe (mean %g) with inf=%d zero=%d" % (mean, inf, zero)
+    return None
+
+
 def attach_oracle(impl, cases):
     """stage 1: the reference run (libstdc++ on std::mt19937(seed)) attaches the oracle draws"""
     idx = [i for i, c in enumerate(cases) if c.startswith("mk")]
@@ -497,14 +526,20 @@ def run(ctx):
         gcs.append("mkgumbel %s %s %d %s %s %d" % (DEVS[i % 4] if i < 20 else r.choice(DEVS), r.choice("TN"), BSEEDS[i // 4] if i < 20 else r.getrandbits(32),
                    fb(r.choice([0.0, 1.0, -3.0, f32(r.uniform(-5, 5))])), fb(r.choice([1.0, 0.5, 2.0, 0.0, -1.0, f32(r.uniform(0, 5))])), r.choice([1, 4, 16, 40])))
     gcs = attach_oracle(impl, gcs)
-    _, go1 = pv.run_lines(impl, gcs)
-    _, go2 = pv.run_lines(model, gcs)
+    grc1, go1 = pv.run_lines(impl, gcs)
+    grc2, go2 = pv.run_lines(model, gcs)
     gbad = 0
+    if grc1 != 0 or grc2 != 0:
+        ctx.violation("corr-gumbel-rc", {"kind": "driver-failed", "engine": "random-gumbel", "impl_rc": grc1, "model_rc": grc2, "impl_lines": len(go1), "model_lines": len(go2),
+                                         "witness": "random-C17 :: gumbel run: driver exit codes %s/%s" % (grc1, grc2), "impl_driver": impl, "model_driver": model}, False,
+                      "gumbel run: rand_drv rc=%s (%d lines), model rc=%s (%d lines) for %d cases" % (grc1, len(go1), grc2, len(go2), len(gcs)))
+    go1 += ["<no output>"] * (len(gcs) - len(go1))
+    go2 += ["<no output>"] * (len(gcs) - len(go2))
     for c, x, y in zip(gcs, go1, go2):
         t = c.split()
         mu, beta = bf(t[4]), bf(t[5])
         xs, ys = x.split(","), y.split(",")
-        if len(xs) != len(ys) or not all(gumbel_close(a, b, mu, beta) for a, b in zip(xs, ys)):
+        if "<no output>" in (x, y) or len(xs) != len(ys) or not all(gumbel_close(a, b, mu, beta) for a, b in zip(xs, ys)):
             gbad += 1
             if gbad <= 2:
                 ctx.violation("corr-gumbel", {"kind": "correspondence", "engine": "random-gumbel", "case": c, "impl": x, "model": y,
@@ -582,22 +617,39 @@ def run(ctx):
 
     # ---- D. directed probes: repaired defects, known finding, observations ---------------------
     reg = regression_probes()
-    _, o1 = pv.run_lines(impl, [c for _, c, _ in reg])
+    rrc, o1 = pv.run_lines(impl, [c for _, c, _ in reg])
     for (want, c, what), x in zip(reg, o1 + ["<no output>"] * (len(reg) - len(o1))):
         if x != want:
             impl_fail("invalid-parameter", c, x, ["%s must be rejected (expected `%s`)" % (what, want)])
+    if rrc != 0:
+        impl_fail("invalid-parameter", "regression probes", "rc=%s after %d of %d lines" % (rrc, len(o1), len(reg)), ["rand_drv did not exit 0 on the regression probes"])
     ctx.cov["repaired_defect_probes"] = {"cases": len(reg), "what": "NaN p / bounds / sd / dropout rate, infinite bounds and spans beyond FLT_MAX are rejected (D25, D27)"}
     fps = finding_probes()
-    _, o1 = pv.run_lines(impl, [c for _, c, _ in fps])
+    frc, o1 = pv.run_lines(impl, [c for _, c, _ in fps])
     obs = []
-    for (cls, c, what), x in zip(fps, o1):
+    for (cls, c, what), x in zip(fps, o1 + ["<no output>"] * (len(fps) - len(o1))):
         rep = x.startswith("FAIL")
-        if rep and not cls.endswith("(observation)"):
-            ctx.violation("finding", {"kind": "implementation-check", "case": c, "impl": x, "why": what,
-                                      "witness": "random-C17 :: %s" % cls, "impl_driver": impl}, True,
-                          "`%s` -> %s (%s)" % (c, x[:160], what))
-        obs.append({"class": cls, "what": what, "case": c, "observed": x[:160], "reproduced": rep})
+        if cls.endswith("(observation)"):
+            if not x.startswith(("FAIL", "ok", "rej")):
+                impl_fail("finding-probe", c, x, ["the probe did not run"])
+        elif rep:
+            # the known witness (class label) ONLY for the mechanism of the finding: the only breaches are +inf at the
+            # top of the float range (overflow probe; P(draw > log FLT_MAX) = 4 % for mean 80, sd 5: at most 10 % accepted)
+            # resp. +0 at the bottom (underflow probe); a negative value, NaN, wrong size, any other element outside the
+            # support or an implausible share is an ordinary violation named by its case line
+            why = lognormal_range_mechanism(c, x)
+            ctx.violation("finding", {"kind": "implementation-check", "case": c, "impl": x, "why": what if why is None else why,
+                                      "witness": ("random-C17 :: %s :: %s" % (cls, x[x.find("counts"):])) if why is None else "random-C17 :: " + c, "impl_driver": impl}, True,
+                          "`%s` -> %s (%s)" % (c, x[:220], what if why is None else why))
+        elif x == "<no output>" or not x.startswith("ok"):
+            impl_fail("finding-probe", c, x, ["the probe did not run"])
+        obs.append({"class": cls, "what": what, "case": c, "observed": x[:220], "reproduced": rep})
+    if frc != 0:
+        impl_fail("finding-probe", "finding probes", "rc=%s after %d of %d lines" % (frc, len(o1), len(fps)), ["rand_drv did not exit 0 on the finding probes"])
     ctx.cov["finding_probes"] = obs
+    ctx.cov["reference_stream_note"] = ("rand_drv's reference stream (mkstream/mkdropout/mkgumbel, ref_draw) is built from the SAME libstdc++ calls as primitiv/core/random.h "
+                                        "(std::mt19937 + std::bernoulli/uniform_real/normal/lognormal_distribution): the exact correspondence validates plumbing, seeding, request order and "
+                                        "parameter passing of the code around those calls, NOT libstdc++'s generators or distributions (those are only tested statistically, part C)")
     ctx.cov["notes"] = ["compile-time only, not a finding: basic_functions.h declares random::log_normal<Var>(shape, mean, sd, Device &dev) with a reference (bernoulli/uniform/normal take Device *); the generic bodies log_normal<Var>(shape, mean, sd, &dev) and log_normal<Var>(shape, mean, sd) (nullptr to a Device &) cannot be instantiated, so log_normal with the default device does not compile",
                         "XavierUniform with scale < 0 requests uniform(bound, -bound) with upper < lower and is rejected; scale = 0 requests uniform(-0, 0) (all zeros); XavierNormal with scale <= 0 is rejected (sd <= 0)",
                         "Identity on a batched square shape replaces the tensor by a batch-1 identity matrix",
